@@ -214,6 +214,8 @@ impl Searcher {
                         #[cfg(weechess_verif)]
                         let _verif_guard =
                             transpositions.verif_enter(data.verif_index, thread_count);
+                        #[cfg(weechess_verif)]
+                        let _verif_bind = token.verif_bind_thread();
                         let game_state = data.game_state;
                         let best_move = data.best_move;
                         let search_depth = data.search_depth;
@@ -552,6 +554,8 @@ impl Searcher {
         alpha: eval::Evaluation,
         beta: eval::Evaluation,
     ) -> Result<eval::Evaluation, SearchInterrupt> {
+        #[cfg(weechess_verif)]
+        verif::on_quiescence_node();
         let mut buffer = MoveGenerationBuffer::new();
         MoveGenerator::compute_legal_moves_into(&game_state, &mut buffer);
 
